@@ -71,6 +71,13 @@ fn one_case(ctx: &WorkerCtx, rep: &mut WorkerReport, case_seed: u64, boundary: b
         bed.d.exec(Op::Finalise { ts, hash, count: n });
         hist::created_address(&r).unwrap_or_else(|| tool_fallback())
     };
+    let envdump = {
+        let (ts, hash) = bed.next_block();
+        let r = bed.d.exec(Op::Deploy { pk: bed.pk.clone(), data: hist::hx(&asm::initcode(&asm::envdump_runtime())), enc: Enc::Hex, ctx: Ctx { ts, hash: hash.clone(), idx: 0 }, iid: format!("c17-env-{}", case_seed), len: 100_000, txid: hist::ZERO_HASH.into() });
+        let n = bed.d.ntx;
+        bed.d.exec(Op::Finalise { ts, hash, count: n });
+        hist::created_address(&r).unwrap_or_else(|| tool_fallback())
+    };
     let sender_pk = bed.pk.clone();
     let sender = hist::addr_hex(&hist::pk_address(&sender_pk));
     let signer = Signer::new(31);
@@ -81,7 +88,7 @@ fn one_case(ctx: &WorkerCtx, rep: &mut WorkerReport, case_seed: u64, boundary: b
     let mut uniq = 0u64;
     for i in 0..pairs {
         uniq += 1;
-        let pick = if base > 0 && (bed.d.next_height() == act || rng.chance(1, 2)) { 14 } else { rng.below(18) };
+        let pick = if base > 0 && (bed.d.next_height() == act || rng.chance(1, 2)) { 14 } else { rng.below(20) };
         let (name, to, data): (&str, Option<String>, Vec<u8>) = match pick {
             // a precompile that exists from Prague on (BLS12-381 G1ADD of two points at infinity):
             // the answer tells which rule set ran the code
@@ -94,6 +101,9 @@ fn one_case(ctx: &WorkerCtx, rep: &mut WorkerReport, case_seed: u64, boundary: b
                 v.resize(49153, 0);
                 v
             }),
+            // every environment word the statement does not exclude (block gas limit, coinbase, fees, chain id, ...)
+            18 => ("env-words", Some(envdump.clone()), vec![]),
+            19 => ("deploy-env-stamped", None, asm::env_stamped_init()),
             12 => ("number-blockhash", Some(numhash.clone()), vec![]),
             13 => ("deploy-number-stamped", None, asm::number_stamped_init()),
             0 => ("inc", Some(tool.clone()), asm::tool_call(asm::OP_INC, &[asm::word_u64(rng.range(1, 3))], &[])),
@@ -172,7 +182,7 @@ fn one_case(ctx: &WorkerCtx, rep: &mut WorkerReport, case_seed: u64, boundary: b
                     json!({"case_seed": case_seed, "network": net, "program": name, "signed": signed, "eth_call": sim_out, "executed": out, "receipt": rc}));
                 break;
             }
-            if ["inc", "cond", "sstore-old", "create-child", "create2-child", "nested-inc", "batch", "sload", "number-blockhash"].contains(&name) {
+            if ["inc", "cond", "sstore-old", "create-child", "create2-child", "nested-inc", "batch", "sload", "number-blockhash", "env-words"].contains(&name) {
                 rep.nontrivial(format!("{}:{}:{}", name, signed, &out[out.len().saturating_sub(6)..]));
             }
             if name == "rule-set-probe" {
